@@ -173,6 +173,13 @@ class Plain(Referenceable):
         return 3
 
 
+class BadReprPlain(Plain):
+    """a target whose __repr__ (hence "%s" % target) raises"""
+
+    def __repr__(self):
+        raise RuntimeError("no repr for this target")
+
+
 class Relay(Referenceable):
     """the middle party B: forwards the call to a third party C and hands C's answer (or failure) back to A"""
 
@@ -385,6 +392,8 @@ def setup(opts):
         tr.send()
         return user.getTrackerForYourReference(tr.clid, iname, url).getRef()
     rr_plain = export(tb, cb, plain)
+    badrepr = BadReprPlain()
+    rr_badrepr = export(tb, cb, badrepr)
     rr_typed = export(tb, cb, typed)     # the caller does not know the interface: only the callee checks
     typed2 = Typed()
     rr_typed_known = export(tb, cb, typed2, RIThing.__remote_name__)   # here the caller knows it too
@@ -402,8 +411,8 @@ def setup(opts):
     thing = Thing()
     hint = "tcp:c.example.org:1234" if gm != "unresolvable" else "fake:nosuch:1"
     rr_thing = export(c_a, a_c, thing, url="pb://%s@%s/thing" % (TUB_C, hint))
-    rrs = dict(plain=rr_plain, typed=rr_typed, typed_known=rr_typed_known, bogus=rr_bogus, relay=rr_relay, thing=rr_thing)
-    keep = (plain, typed, typed2, far, relay, thing, c_b, b_c, c_a, a_c, net)
+    rrs = dict(plain=rr_plain, badrepr=rr_badrepr, typed=rr_typed, typed_known=rr_typed_known, bogus=rr_bogus, relay=rr_relay, thing=rr_thing)
+    keep = (plain, typed, typed2, far, relay, thing, badrepr, c_b, b_c, c_a, a_c, net)
     return tb, cb, rrs, keep
 
 
@@ -492,6 +501,10 @@ def issue(rrs, spec):
         return rrs["plain"].callRemote("echo", nest(spec["depth"], u"ab\udcffcd"))
     if k == "arg-deep":             # a list nested deeper than the interpreter's recursion limit
         return rrs["plain"].callRemote("echo", nest(spec["depth"], 1))
+    if k == "raise-badrepr":        # the method raises on a target that cannot be formatted with %s
+        return rrs["badrepr"].callRemote("boom", spec["cls"], spec["msg"][0], spec["msg"][1])
+    if k == "ok-badrepr":
+        return rrs["badrepr"].callRemote("echo", spec["v"])
     if k == "raise":
         return rrs["plain"].callRemote("boom", spec["cls"], spec["msg"][0], spec["msg"][1])
     if k == "raise-noargs":
@@ -624,24 +637,67 @@ class RecvTrace:
         b.dataReceived = dr
 
 
+_RV_HOOKS = {}       # id(broker) -> callback(unslicer, failure): CallUnslicer.reportViolation as it is entered
+_orig_report_violation = call.CallUnslicer.reportViolation
+
+
+def _traced_report_violation(self, f):
+    h = _RV_HOOKS.get(id(self.broker))
+    if h is not None:
+        h(self, f)
+    return _orig_report_violation(self, f)
+
+
+call.CallUnslicer.reportViolation = _traced_report_violation
+
+
 class DeliveryLog:
-    """the callee's inbound delivery queue as it really ran: arrival order with the outcome of each ready_deferred
-    (Broker.scheduleCall), and what was done with each delivery (Broker._doCall ran it / Broker.callFailed answered with an
-    error without running it)"""
+    """the callee's side of every inbound call as it really ran.
+    queue / handled: arrival order with the outcome of each ready_deferred (Broker.scheduleCall) and what was done with each
+    delivery (Broker._doCall ran it / Broker.callFailed answered with an error without running it).
+    inbound: one record per `call` sequence whose request id became known, in arrival order: rejected by the CallUnslicer
+    (reportViolation; abort = it was the caller's ABORT) or delivered, with everything the model takes as a parameter of the
+    delivery observed on the real objects (schema present, readiness, _doCall raised / its Deferred failed, checkResults raised,
+    the answer's objectSentDeferred failed, formatting the target raises, str() of the exception raises, local-failure log on).
+    sent: every AnswerSlicer / ErrorSlicer handed to Broker.send, in order."""
 
     def __init__(self, b):
         self.queue = []
         self.handled = []
+        self.inbound = []
+        self.sent = []
+        self.b = b
+        byreq = {}
         ran = set()
-        orig_s, orig_d, orig_f = b.scheduleCall, b._doCall, b.callFailed
+        orig_s, orig_d, orig_f, orig_fin, orig_send = b.scheduleCall, b._doCall, b.callFailed, b._callFinished, b.send
+
+        def log_local():
+            return bool((b.tub and b.tub.logLocalFailures) or not b.tub)
+
+        def rejected(u, f):
+            if u.stage > 0:
+                abort = bool(f.value.args and f.value.args[0] == "ABORT received")
+                self.inbound.append(dict(kind="rejected", reqid=u.reqID, abort=abort, log_local=log_local()))
+        _RV_HOOKS.clear()
+        _RV_HOOKS[id(b)] = rejected
 
         def sched(delivery, rd):
             ent = [delivery.reqID, 0]
             self.queue.append(ent)
+            try:
+                "%s %s %s" % (delivery.obj, delivery.allargs.args, delivery.allargs.kwargs)
+                repr_raises = False
+            except Exception:
+                repr_raises = True
+            rec = dict(kind="delivered", reqid=delivery.reqID, schema=bool(delivery.methodSchema), ready=True, raises=False,
+                       result_ok=True, answer=0, repr_raises=repr_raises, render_raises=False, log_local=log_local())
+            byreq[delivery.reqID] = rec
+            self.inbound.append(rec)
             if rd is not None:
-                def mark(r, ent=ent):
+                def mark(r, ent=ent, rec=rec):
                     if isinstance(r, failure.Failure):
                         ent[1] = 1
+                        rec["ready"] = False
                     return r
                 rd.addBoth(mark)
             return orig_s(delivery, rd)
@@ -649,13 +705,61 @@ class DeliveryLog:
         def do(delivery):
             ran.add(delivery.reqID)
             self.handled.append((0, delivery.reqID))
-            return orig_d(delivery)
+            rec = byreq.get(delivery.reqID)
+            try:
+                res = orig_d(delivery)
+            except BaseException:
+                if rec:
+                    rec["raises"] = True
+                raise
+            from twisted.internet import defer as _defer
+            if isinstance(res, _defer.Deferred) and rec:
+                def mark(r, rec=rec):
+                    if isinstance(r, failure.Failure):
+                        rec["raises"] = True
+                    return r
+                res.addBoth(mark)
+            return res
+
+        def fin(res, delivery):
+            rec = byreq.get(delivery.reqID)
+            try:
+                return orig_fin(res, delivery)
+            except Violation:
+                if rec:
+                    rec["result_ok"] = False
+                raise
 
         def failed(f, reqID, delivery=None):
             if delivery is not None and reqID not in ran:
                 self.handled.append((1, reqID))
+            rec = byreq.get(reqID)
+            if rec is not None:
+                try:
+                    str(f.value)
+                except Exception:
+                    rec["render_raises"] = True
             return orig_f(f, reqID, delivery)
-        b.scheduleCall, b._doCall, b.callFailed = sched, do, failed
+
+        def send(obj):
+            d = orig_send(obj)
+            if isinstance(obj, (call.AnswerSlicer, call.ErrorSlicer)):
+                ent = [0 if isinstance(obj, call.AnswerSlicer) else 2, obj.reqID]
+                self.sent.append(ent)
+                if ent[0] == 0:
+                    def aborted(f, ent=ent, rec=byreq.get(obj.reqID)):
+                        ent[0] = 1
+                        if rec:
+                            rec["answer"] = 1
+                        return None
+                    d.addErrback(aborted)
+            return d
+        b.scheduleCall, b._doCall, b.callFailed, b._callFinished, b.send = sched, do, failed, fin, send
+
+    def summary(self):
+        return dict(queue=[tuple(x) for x in self.queue], handled=list(self.handled), inbound=[dict(x) for x in self.inbound],
+                    sent=[tuple(x) for x in self.sent], active=sorted(self.b.activeLocalCalls.keys()))
+
 
 def run_batch(specs, opts):
     """issue all calls of `specs` back to back (before any byte is delivered: the eventual-send queue holds the
@@ -723,7 +827,7 @@ def _run_batch(specs, opts):
                executed=list(EXECUTED), far_executed=list(FAR_EXECUTED), waiting=len(cb.waitingForAnswers), active_local=len(tb.activeLocalCalls), escaped=escaped,
                logged=len(E.logged_errors) - n_err0,
                recv_trace=dict(callee=(rt_callee.c0, rt_callee.rows, rt_callee.overflow), caller=(rt_caller.c0, rt_caller.rows, rt_caller.overflow)),
-               deliveries=dict(queue=[tuple(x) for x in dlog.queue], handled=list(dlog.handled)))
+               deliveries=dlog.summary())
     return out
 
 
